@@ -3,9 +3,13 @@ package checks
 import (
 	"fmt"
 
+	"github.com/ethereum/go-ethereum/common"
 	"github.com/holiman/uint256"
+	"verif/asm"
 	"verif/fw"
 	"verif/gen"
+	"verif/mc"
+	"verif/scn"
 	"verif/world"
 )
 
@@ -22,11 +26,16 @@ type stdOpts struct {
 	EIPs      bool
 	Forks     []world.Fork
 	Gas       uint64
+	SstoreSeq bool   // sequences of stores to one slot
+	Scn       bool   // scenario call trees
+	ScnDeep   bool   // depth 3 (max 3 frames)
+	ScnGas    uint64 // gas of the scenario's top-level call
 }
 
 func stdOptsFor(tier string) stdOpts {
-	o := stdOpts{IMBound: 2, SeqL: 3, Bytes2: true, EntrySeqL: 1, EIPs: true, Forks: world.StandardForks(), Gas: 200000}
+	o := stdOpts{IMBound: 2, SeqL: 3, Bytes2: true, EntrySeqL: 1, EIPs: true, Forks: world.StandardForks(), Gas: 200000, Scn: true, ScnGas: scn.TopGas, SstoreSeq: true}
 	if tier == "thorough" {
+		o.ScnDeep = true
 		o.IMBound = 3
 		o.FullShape = true
 		o.SeqL = 4
@@ -186,6 +195,62 @@ func forEachStdCase(w *fw.W, o stdOpts, fn func(cs *world.Case, family string)) 
 					}
 				}
 			}
+		}
+	}
+	// SSTORESEQ: every sequence of up to 3 stores to one slot over {0, original, two other values} (net-metering
+	// state machine: original zero / non-zero, dirty / clean, reset to original, cleared)
+	if o.SstoreSeq {
+		vals := []uint64{0, 0x11, 0x22, 0x33}
+		for _, f := range o.Forks {
+			for _, origIx := range []int{0, 1} {
+				f, origIx := f, origIx
+				gen.ForEachSeq(len(vals), 3, func(seq []int) {
+					if len(seq) == 0 || !w.Mine() || w.Expired() {
+						return
+					}
+					p := asm.New()
+					for _, v := range seq {
+						p.Push(vals[v]).Push(9).Op(asm.SSTORE)
+					}
+					p.Push(9).Op(asm.SLOAD).Push(0).Op(asm.MSTORE).Push(32).Push(0).Op(asm.RETURN)
+					cs := gen.StdCase(f, p.Bytes(), "call", o.Gas)
+					if origIx == 1 {
+						cs.Accounts[1].Storage[common.HexToHash("0x9")] = common.HexToHash("0x11")
+					}
+					cs.Note = fmt.Sprintf("SSTORESEQ orig=%d seq=%v", origIx, seq)
+					fn(cs, "SSTORESEQ")
+				})
+			}
+		}
+	}
+	// SCN: scenario call trees (mutually calling contract sets: every call kind, creates, self-destructs, reverts)
+	if o.Scn {
+		so := &scnOpts{Forks: o.Forks, Answers: failAlphabet, BoundAll: true, TopValues: []int{0, 1}}
+		if !o.ScnDeep {
+			so.Forks, so.TopValues = []world.Fork{world.Byzantium, world.London, world.Shanghai}, []int{0}
+		}
+		so.Gen = scn.GenOpts{MaxDepth: 2, Effects: []scn.Effect{scn.ENone, scn.ESstore, scn.ELog}, PreEffects: []scn.Effect{scn.ENone, scn.ESstore}, Terms: allTerms, InitTerms: initTerms, Kinds: allKinds,
+			Values: []int{0, 1, 2}, Targets: []scn.Target{scn.TgChild, scn.TgPrecompile, scn.TgCodeless, scn.TgSelf}}
+		if o.ScnDeep {
+			so.Gen.MaxDepth, so.Gen.MaxFrames = 3, 3
+		}
+		ok := true
+		mc.Explore(0, func(c *mc.Ctx) {
+			sc := genScn(c, so)
+			if !ok || sc.Fork < world.Byzantium || !w.Mine() {
+				return
+			}
+			if w.Expired() {
+				ok = false
+				return
+			}
+			cs := sc.Case()
+			cs.Gas = o.ScnGas
+			cs.Note = "SCN " + sc.String()
+			fn(cs, "SCN")
+		}, func() bool { return !ok })
+		if !ok {
+			return false
 		}
 	}
 	// EIPS: extra EIP enabled singly on the fork before its activation
